@@ -11,5 +11,7 @@ import J5V.Props.C18
 #print axioms J5V.Props.C18.C18_reader_formats_importable
 #print axioms J5V.Props.C18.C18_flatten_terminates
 #print axioms J5V.Props.C18.C18_codec_ok_partial
+#print axioms J5V.Props.C18.anyListWitness_reflects
+#print axioms J5V.Props.C18.C18_codec_ok_counterexample
 #print axioms J5V.Props.C18.C18_src_kind_switches
 #print axioms J5V.Props.C18.C18_model_kind_table
